@@ -84,6 +84,7 @@ PROFILES = {
     "dups": Profile("dups", W(resend=8, adv=3, restart=1, close=4, release=3), napps=1, nsides=3, nnames=2, nmail=2, dup=True),
     "alloc": Profile("alloc", W(fill=10, alloc=14, release=6, claim=4, close=3, flow_step=8, flow_new=2, longadv=1, adv=2, conn=6), napps=2, nsides=3, nnames=5, nmail=2),
     "shared": Profile("shared", W(open=8, add=8, close=5, claim=2, flow_step=10, reconn=4, restart=2, adv=2, longadv=1), napps=2, nsides=2, nnames=2, nmail=1, cross_app_mailbox=True),
+    "options": Profile("options", W(alloc=6, list=6, release=6, close=5, claim=5, longadv=1), napps=2, nsides=3, nnames=3, nmail=2),
     "twoapps": Profile("twoapps", W(close=5, release=4, adv=3, longadv=1, restart=1, faultadv=1, faultadv2=3), napps=2, nsides=2, nnames=2, nmail=2),
 }
 
@@ -430,7 +431,21 @@ class Driver(object):
             self.do({"op": "advance", "dt": 300.0 + (a % 2) * 300.0 + b, "fault": [0]})
             return
         if kind == "restart":
+            if p.rephase and (not self.w.snapshot()["messages"] or not self.w.snapshot()["nameplates"]) and a % 4:
+                # C11: most restart points should come while there is state to lose
+                kind = "flow_step"
+                if not self.flows:
+                    self.flows.append(Flow(self, a, b, c, m))
+                f = self.flows[a % len(self.flows)]
+                for _ in range(1 + c % 3):
+                    f.step(t1, t2)
+                return
             self.do({"op": "rephase" if p.rephase else "restart"})
+            if p.rephase and b % 3:
+                # sweeps before / between the reconnects
+                if c % 2:
+                    self.new_conn(self.app_of(a), self.side_of(b))
+                self.do({"op": "advance", "dt": [301.0, 330.5, 600.0, 299.0][b % 4]})
             return
         cs = None
         if kind in ("claim", "alloc", "list", "claim_open"):
